@@ -21,8 +21,8 @@ META = {
 
 THEOREMS = ["relate_sound", "relate_sound_any_variance", "teq_sound_in_models", "teqm_sound_in_models",
             "relate_complete_partial", "relate_complete_matching", "relate_complete_two_sided",
-            "relate_unifiers_exact", "relate_nosol_no_unifier",
-            "relate_complete_numeric_scalar", "relate_complete_numeric_var_var", "relate_complete_general_numeric"]
+            "relate_sound_unifier", "relate_unifiers_exact", "relate_nosol_no_unifier",
+            "relate_complete_matching_numeric", "relate_complete_two_sided_numeric", "relate_complete_numeric_scalar", "relate_complete_numeric_var_var", "relate_complete_general_numeric"]
 
 I, CO, CONTRA = "Invariant", "Covariant", "Contravariant"
 
